@@ -515,6 +515,11 @@ def _sel_cfgs():
         out.append({"shape": (2, 2), "index": repr(idx)})
     out.append({"shape": (2, 1, 2), "index": repr((1, slice(None), 0))})
     out.append({"shape": (2, 1, 2), "index": repr((slice(None), 0))})
+    # several integers followed by a real selection (every dropped axis shifts the later ones), 3-D and 4-D
+    out.append({"shape": (2, 2, 3), "index": repr((1, 0, slice(1, 3)))})
+    out.append({"shape": (2, 2, 2, 2), "index": repr((1, 0, slice(1, 2), slice(None)))})
+    out.append({"shape": (2, 2, 2, 2), "index": repr((0, slice(None), 1, slice(0, 1)))})
+    out.append({"shape": (2, 2, 2), "index": repr((0, 1, 1))})
     return out
 
 
